@@ -48,7 +48,14 @@ def check(case):
     nt_keys = []
     counters = {"witnesses": 0, "capped_searches": 0}
     feats = list(case.get("features", []))
+    # a Fee comparison against an `intc` whose constant block the tool cannot resolve (intcblock outside the entry
+    # block, or more than one intcblock) is, for the tool, a comparison with a value it cannot evaluate: its
+    # documented heuristic, which the statement of C01 puts outside the claim
+    unresolved = bool({"intcblock_not_in_entry_block", "second_intcblock_in_later_block", "second_intcblock_in_subroutine"} & set(feats))
     for det in names:
+        if det == "missing-fee-check" and unresolved and "Fee" in reads:
+            counters["outside_claim_fee_vs_unresolved_constant"] = counters.get("outside_claim_fee_vs_unresolved_constant", 0) + 1
+            continue
         wit, rejected, capped = find_witness(g, det, an.mode, cap=case.get("cap", 250))
         counters["capped_searches"] += int(capped)
         checks_field = bool(reads & set(GOVERNED_FIELDS[det]))
